@@ -30,7 +30,8 @@ type Info struct {
 
 // Run executes the case against the real buffer and the slice model.
 func Run(c Case) (info Info, v *vstat.Violation) {
-	return info, vstat.Guard("ring:panic", func() *vstat.Violation { return run(c, &info) })
+	v = vstat.Guard("ring:panic", func() *vstat.Violation { return run(c, &info) })
+	return info, v
 }
 
 func run(c Case, info *Info) *vstat.Violation {
